@@ -11,7 +11,8 @@ Verdict hygiene (AGENT_GUIDE): `request()` returns a `Reply` whose `.kind` is on
   "timeout" - no response within `timeout` seconds although the process is alive.  The default (120 s) is > 100x the
               normal latency (a request on a 40-line buffer answers in < 50 ms, a didOpen + barrier in < 0.3 s), so
               callers may treat it as "no response"; they should still report it as its own class.
-Exit status after shutdown / pipe close is 101 on the pinned tree (C20's finding): `close()` never interprets it.
+Exit status after shutdown / pipe close (0 since /repo 051876a, 101 on older trees: C20's business) is returned to the
+caller by shutdown()/close_pipe()/wait_exit() and never interpreted here; kill() ignores it.
 """
 import json
 import os
@@ -81,41 +82,44 @@ class LspServer:
             os.makedirs(os.path.dirname(p), exist_ok=True)
             with open(p, "w", newline="", encoding="utf-8") as f:
                 f.write(text)
-        self.port = free_port()
         self._stderr_path = os.path.join(self.dir, ".stderr")
-        self._stderr_f = open(self._stderr_path, "wb")
-        e = dict(_ENV)
+        self._env = dict(_ENV)
         if env:
-            e.update(env)
-        self.p = subprocess.Popen([mos, "lsp", "-p", str(self.port)], cwd=self.dir, stdin=subprocess.PIPE,
-                                  stdout=subprocess.PIPE, stderr=self._stderr_f, env=e, bufsize=0)
-        self.buf = b""
-        self.eof = False
+            self._env.update(env)
         self.next_id = 1
         self.versions = {}
+        self.trace = [] if trace else None
+        self.capabilities = None
+        # the debug-adapter port is picked by binding port 0 and releasing it: another process may grab it before mos binds
+        # it (mos then exits at once), so starting is retried with a new port
+        last = None
+        for _attempt in range(6):
+            self._spawn()
+            if not initialize:
+                return
+            r = self.request("initialize", {"processId": None, "rootUri": path_to_uri(self.dir), "capabilities": {}})
+            if r.kind == "result":
+                self.capabilities = r.value.get("capabilities")
+                self.notify("initialized", {})
+                return
+            last = r
+            self._reap()
+        shutil.rmtree(self.dir, ignore_errors=True)
+        raise RuntimeError("mos lsp did not initialize: %r" % last)
+
+    def _spawn(self):
+        self.port = free_port()
+        self._stderr_f = open(self._stderr_path, "wb")
+        self.p = subprocess.Popen([self.mos, "lsp", "-p", str(self.port)], cwd=self.dir, stdin=subprocess.PIPE,
+                                  stdout=subprocess.PIPE, stderr=self._stderr_f, env=self._env, bufsize=0)
+        self.buf = b""
+        self.eof = False
         self.diagnostics = {}       # uri -> last published list
         self.diag_log = []          # [(uri, diagnostics)] in publication order
         self.notifications = []     # every other server->client notification / request
         self.pending = {}           # id -> response message that arrived while waiting for another id
-        self.trace = [] if trace else None
-        self.capabilities = None
-        if initialize:
-            r = self.request("initialize", {"processId": None, "rootUri": path_to_uri(self.dir), "capabilities": {}})
-            if r.kind != "result":
-                self.kill()
-                raise RuntimeError("mos lsp did not initialize: %r" % r)
-            self.capabilities = r.value.get("capabilities")
-            self.notify("initialized", {})
 
-    # ------------------------------------------------------------------ context manager / teardown
-    def __enter__(self):
-        return self
-
-    def __exit__(self, *a):
-        self.kill()
-
-    def kill(self):
-        """hard stop + scratch directory removal; exit status is not interpreted"""
+    def _reap(self):
         if self.p is not None:
             try:
                 self.p.kill()
@@ -135,6 +139,17 @@ class LspServer:
             self._stderr_f.close()
         except Exception:
             pass
+
+    # ------------------------------------------------------------------ context manager / teardown
+    def __enter__(self):
+        return self
+
+    def __exit__(self, *a):
+        self.kill()
+
+    def kill(self):
+        """hard stop + scratch directory removal; exit status is not interpreted"""
+        self._reap()
         shutil.rmtree(self.dir, ignore_errors=True)
 
     def shutdown(self, wait=10.0, send_exit=True):
